@@ -15,15 +15,64 @@ theorem d_rOptTable (m : Nat) (o : Option TName) : CS (Ddl.rOptTable m o) := by
   | none => exact CS_nil
   | some n => exact d_rTable m n
 
-theorem d_opt1 (base : String) (l : Option Nat) : CS (opt1 base l) := by
-  cases l with
-  | none => exact CS_S _
-  | some n => intro pw k hk; ev [opt1, num]
+theorem notE_natText (n : Nat) : notE (natText n) = true := by
+  have hd := digitChar_isDigit n
+  have : digitChar n ≠ 'E' := by
+    intro h; rw [h] at hd; revert hd; decide
+  simp [notE, natText_getLast, this]
 
-theorem d_opt2 (base : String) (l : Option (Nat × Nat)) : CS (opt2 base l) := by
-  cases l with
-  | none => exact CS_S _
-  | some p => obtain ⟨a, b⟩ := p; intro pw k hk; ev [opt2, num]
+theorem CS_num (n : Nat) : CS [num n] := by
+  intro pw k hk
+  simp [ctx, ctxP, num, notE_natText, hK]
+
+open SeaQ.Gen.ColTypes in
+/-- no text of the template ends in `E` -/
+def tplOK (t : List Seg) : Bool := t.all (fun | .lit s => notE s.toList | .par _ => true)
+
+open SeaQ.Gen.ColTypes in
+theorem d_segPieces (ρ : String → Nat) : ∀ (t : List Seg), tplOK t = true → CT (segPieces ρ t) := by
+  intro t
+  induction t with
+  | nil => intro _; exact CT_nil
+  | cons x r ih =>
+    intro h
+    simp only [tplOK, List.all_cons, Bool.and_eq_true] at h
+    have ihr := ih (by simpa [tplOK] using h.2)
+    cases x with
+    | lit s =>
+      intro pw k
+      simp only [segPieces]
+      exact ctx_cons _ _ pw k (by simp [ctxP, S, h.1]) (ihr _ k)
+    | par n =>
+      intro pw k
+      simp only [segPieces]
+      exact ctx_cons _ _ pw k (by simp [ctxP, num, notE_natText]) (ihr _ k)
+
+open SeaQ.Gen.ColTypes in
+def tableOK (table : List Arm) : Bool := table.all (fun a => a.templates.all tplOK)
+
+open SeaQ.Gen.ColTypes in
+theorem d_fromTable (table : List Arm) (ht : tableOK table = true) (v : String) (i : Nat) (ρ : String → Nat) :
+    CT (fromTable table v i ρ) := by
+  unfold fromTable
+  cases hf : findArm table v with
+  | none => exact CT_bad
+  | some a =>
+    simp only
+    cases hg : a.templates[i]? with
+    | none => exact CT_bad
+    | some t =>
+      simp only
+      apply d_segPieces
+      have ha : a ∈ table := List.mem_of_find?_eq_some hf
+      have htm : t ∈ a.templates := List.mem_of_getElem? hg
+      simp only [tableOK, List.all_eq_true] at ht
+      exact ht a ha t htm
+
+theorem mysql_tableOK : tableOK SeaQ.Gen.ColTypes.mysql = true := by decide
+theorem postgres_tableOK : tableOK SeaQ.Gen.ColTypes.postgres = true := by decide
+theorem sqlite_tableOK : tableOK SeaQ.Gen.ColTypes.sqlite = true := by decide
+theorem serial_tableOK : tableOK SeaQ.Gen.ColTypes.postgresSerial = true := by decide
 
 theorem h_rEnumVariants (l : List String) : okK (hK (rEnumVariants false l)) = true := by cases l <;> ev [rEnumVariants]
 
@@ -40,47 +89,40 @@ theorem d_rEnumVariants : ∀ (l : List String) (first : Bool), CF first (rEnumV
     · have := hpw rfl; subst this; ev [rEnumVariants, rStrLit]
 
 theorem d_rTypeMysql (t : ColType) : CS (rTypeMysql t) := by
+  have gen : ∀ t, CS (fromTable SeaQ.Gen.ColTypes.mysql (variantName t) (idxMysql t).1 (idxMysql t).2 ++
+      (if SeaQ.Gen.ColTypes.mysqlUnsigned.contains (variantName t) then [S " ", S "UNSIGNED"] else [])) := fun t =>
+    CS.app (d_fromTable _ mysql_tableOK _ _ _).toS (CS_ite (by intro pw k hk; ev) CS_nil) (okK_ite (by ev) rfl)
   cases t
-  case char l => exact d_opt1 _ l
-  case bit l => exact d_opt1 _ l
-  case decimal p => exact d_opt2 _ p
-  case money p => exact d_opt2 _ p
-  case string l => cases l <;> (intro pw k hk; ev [rTypeMysql, num])
-  case varBinary l => cases l <;> (intro pw k hk; ev [rTypeMysql, num])
+  case custom s => exact CS_raw _
   case «enum» n vs =>
     simp only [rTypeMysql]
     refine CS.app (CTE.appU (a := [S "ENUM("]) (by intro pw k; ev) (CU_ite ?_ (d_rEnumVariants vs true).toU)) (CS_S ")") (by ev)
     intro pw k hpw hk; subst hpw; ev [rStrLit]
-  all_goals (intro pw k hk; ev [rTypeMysql, num])
+  all_goals exact gen _
 
 theorem d_rTypePg : ∀ (t : ColType), CS (rTypePg t) := by
+  have gen : ∀ t, CS (fromTable SeaQ.Gen.ColTypes.postgres (variantName t) (idxPg t).1 (idxPg t).2) := fun t =>
+    (d_fromTable _ postgres_tableOK _ _ _).toS
   intro t
   induction t with
   | array e ih => simp only [rTypePg]; exact CS.app ih (CS_S "[]") (by ev)
-  | char l => exact d_opt1 _ l
-  | bit l => exact d_opt1 _ l
-  | vector l => exact d_opt1 _ l
-  | decimal p => exact d_opt2 _ p
-  | string l => cases l <;> (intro pw k hk; ev [rTypePg, num])
   | interval f p => cases f <;> cases p <;> (intro pw k hk; ev [rTypePg, num])
-  | _ => intro pw k hk; ev [rTypePg, num]
+  | custom s => exact CS_raw _
+  | «enum» n vs => exact CS_raw _
+  | _ => exact gen _
 
 theorem d_rTypeSqlite (a : Bool) (t : ColType) : CS (rTypeSqlite a t) := by
+  have gen : ∀ t, CS (fromTable SeaQ.Gen.ColTypes.sqlite (variantName t) (idxSqlite a t).1 (idxSqlite a t).2) := fun t =>
+    (d_fromTable _ sqlite_tableOK _ _ _).toS
   cases t
-  case char l => exact d_opt1 _ l
-  case money p => exact d_opt2 _ p
-  case string l => cases l <;> (intro pw k hk; ev [rTypeSqlite, num])
-  case varBinary l => cases l <;> (intro pw k hk; ev [rTypeSqlite, num])
+  case custom s => exact CS_raw _
   case decimal p =>
     cases p with
-    | none => intro pw k hk; ev [rTypeSqlite]
-    | some q => obtain ⟨x, y⟩ := q; simp only [rTypeSqlite]; split <;> (intro pw k hk; ev [num])
-  case bigInteger => cases a <;> (intro pw k hk; ev [rTypeSqlite])
-  case bigUnsigned => cases a <;> (intro pw k hk; ev [rTypeSqlite])
-  all_goals (intro pw k hk; ev [rTypeSqlite, num])
+    | none => simp only [rTypeSqlite]; exact gen _
+    | some q => obtain ⟨x, y⟩ := q; simp only [rTypeSqlite]; exact CS_ite CS_bad (d_fromTable _ sqlite_tableOK _ _ _).toS
+  all_goals (simp only [rTypeSqlite]; exact gen _)
 
-theorem d_rSerial (t : ColType) : CS (rSerial t) := by
-  cases t <;> (intro pw k hk; ev [rSerial])
+theorem d_rSerial (t : ColType) : CS (rSerial t) := (d_fromTable _ serial_tableOK _ _ _).toS
 
 theorem d_rType (d : Backend) (specs : List Spec) (t : ColType) : CS (rType d specs t) := by
   cases d <;> simp only [rType]
